@@ -65,6 +65,41 @@ func (a *Auth) newCookie(req loginJSON, addr string) (c *http.Cookie, err error)
 	}, nil
 }
 
+// checkBasicAuth returns true if user and pass are valid credentials.  The
+// attempts from remoteAddr are counted and limited in the same way as the ones
+// made through the login API.
+func (a *Auth) checkBasicAuth(remoteAddr, user, pass string) (ok bool) {
+	rateLimiter := a.rateLimiter
+	if rateLimiter == nil {
+		_, ok = a.findUser(user, pass)
+
+		return ok
+	}
+
+	// See the comment about realIP in handleLogin.
+	remoteIP, err := netutil.SplitHost(remoteAddr)
+	if err != nil {
+		log.Error("auth: getting remote address: %s", err)
+
+		return false
+	}
+
+	if left := rateLimiter.check(remoteIP); left > 0 {
+		log.Info("auth: basic authorization from ip %s is blocked for %s", remoteIP, left)
+
+		return false
+	}
+
+	_, ok = a.findUser(user, pass)
+	if ok {
+		rateLimiter.remove(remoteIP)
+	} else {
+		rateLimiter.inc(remoteIP)
+	}
+
+	return ok
+}
+
 // realIP extracts the real IP address of the client from an HTTP request using
 // the known HTTP headers.
 //
@@ -250,7 +285,7 @@ func optionalAuthThird(w http.ResponseWriter, r *http.Request) (mustAuth bool) {
 		// Check Basic authentication.
 		user, pass, hasBasic := r.BasicAuth()
 		if hasBasic {
-			_, isAuthenticated = globalContext.auth.findUser(user, pass)
+			isAuthenticated = globalContext.auth.checkBasicAuth(r.RemoteAddr, user, pass)
 			if !isAuthenticated {
 				log.Info("%s: invalid basic authorization value", pref)
 			}
